@@ -449,6 +449,11 @@ read_chunk()
     ChunkHeader header;
     auto decoder = stream_.make_decoder(ovmb_size<ChunkHeader>);
     read(decoder, header);
+    if (reached_eof_chunk) {
+        state_ = ReadState::ErrorInvalidFile;
+        error_msg_ = "Chunk found after EOF chunk";
+        return;
+    }
     if (header.file_length > stream_.remaining_bytes()) {
         state_ = ReadState::ErrorChunkTooBig;
         return;
